@@ -71,7 +71,9 @@ class Sandbox:
         "a/b": b"content of a/b!" * 50,          # 750 bytes: first block is full
         "b": b"content of b..." * 40,            # 600 bytes
         "s": b"s",                               # shorter than any upload
+        ".b": b"content of dot-b " * 9,           # a dot file next to "b": never to be confused with it
     }
+    LINKS = {"ln": "b"}                           # a symbolic link inside the tree, to a file inside the tree
 
     def __init__(self, base, shared):
         self.base = base
@@ -98,7 +100,8 @@ class Sandbox:
         self.contents = {}
         for (root, rel), (kind, digest, size) in self.base_snapshot.items():
             if kind == "file":
-                with open(os.path.join(self.base, root, rel) if root != "outside" else os.path.join(self.base, rel), "rb") as f:
+                fp = os.path.join(self.base, root, rel) if root != "outside" else os.path.join(self.base, rel)
+                with open(fp, "rb") as f:
                     self.contents["%s:%s" % (root, rel)] = f.read()
 
     def _populate(self, root, tag):
@@ -111,6 +114,8 @@ class Sandbox:
                 os.makedirs(os.path.dirname(p), exist_ok=True)
                 with open(p, "wb") as f:
                     f.write(("[%s] " % tag).encode() + content)
+        for rel, target in self.LINKS.items():
+            os.symlink(target, os.path.join(root, rel))
 
     def rootname(self, path):
         for name in (["root"] if self.shared else ["send", "recv"]):
@@ -129,6 +134,9 @@ class Sandbox:
             for x in files:
                 p = os.path.join(d, x)
                 root, rel = self.rootname(p)
+                if os.path.islink(p):
+                    snap[(root, rel)] = ("link", os.readlink(p), 0)     # a link is its target's name, not its bytes
+                    continue
                 try:
                     with open(p, "rb") as f:
                         b = f.read()
@@ -146,8 +154,14 @@ class Sandbox:
             if root != name:
                 continue
             comps = [codes(c) for c in rel.split(os.sep)]
-            st = os.stat(os.path.join(rootdir, rel))
-            out.append({"path": comps, "kind": kind, "size": st.st_size, "cid": "%s:%s" % (root, rel) if kind == "file" else ""})
+            fp = os.path.join(rootdir, rel)
+            if kind == "link":
+                kind = "file" if os.path.isfile(fp) else "dir"
+            st = os.stat(fp)
+            cid = "%s:%s" % (root, rel) if kind == "file" else ""
+            if os.path.islink(fp):
+                cid = "%s:%s" % (root, os.path.relpath(os.path.realpath(fp), os.path.realpath(rootdir)))
+            out.append({"path": comps, "kind": kind, "size": st.st_size, "cid": cid})
         return out
 
     def delta(self, upcid=None, upbytes=None):
@@ -188,6 +202,10 @@ class Sandbox:
                     shutil.rmtree(p, ignore_errors=True)
                 elif os.path.lexists(p):
                     os.remove(p)
+            elif want[0] == "link":
+                if os.path.lexists(p):
+                    os.remove(p)
+                os.symlink(want[1], p)
             elif want[0] == "file":
                 os.makedirs(os.path.dirname(p), exist_ok=True)
                 with open(p, "wb") as f:
